@@ -13,8 +13,8 @@ import (
 
 func init() {
 	eng.Register(&eng.Check{
-		ID: "C17",
-		Rule: "E1 bounded product for Filter.Execute: container shapes ([]T, named slice type, [N]T, map[K]T for K in {string,int,named string,bool}; nil and empty containers) over element kinds (struct, *struct incl. nil, map[string]interface{}, interface{}) of length 0..4 (thorough 0..5) with EVERY assignment of three element values, plus lengths 8, 9, 17, 33 with selected patterns, (evaluating to T / F / error for `f == 1`) x 30 filter expressions; oracle against the implementation's own element-wise Evaluate: result type (same slice type, []Elem for arrays, same map type), kept elements in original order / kept keys, first evaluation error => (nil, err), input unchanged (deep comparison with an identically built twin), fresh backing storage, nil filter returns its input, idempotence, E / not(E) partition when no element errs; non-containers (nil, int, string, struct, pointer to slice, chan, func) => error, never panic. Distinct by construction; non-trivial = container with >=1 element.",
+		ID:          "C17",
+		Rule:        "E1 bounded product for Filter.Execute: container shapes ([]T, named slice type, [N]T, map[K]T for K in {string,int,named string,bool,interface{} with keys that print alike}; nil and empty containers) over element kinds (struct, *struct incl. nil, map[string]interface{}, interface{}, struct with typed + hidden fields incl. the all-zero element) of length 0..4 (thorough 0..5) with EVERY assignment of three element values, plus lengths 8, 9, 17, 33 with selected patterns, (evaluating to T / F / error for `f == 1`) x 30 filter expressions; oracle against the implementation's own element-wise Evaluate: result type (same slice type, []Elem for arrays, same map type), kept elements in original order / kept keys, first evaluation error => (nil, err), input unchanged (deep comparison with an identically built twin), fresh backing storage, nil filter returns its input, idempotence, E / not(E) partition when no element errs; non-containers (nil, int, string, struct, pointer to slice, chan, func) => error, never panic. Distinct by construction; non-trivial = container with >=1 element.",
 		Assumptions: []string{"differential against Evaluate on the same tree (Evaluate itself is C01's business)", "bounded container sizes and element alphabet"},
 		Run:         runC17,
 	})
@@ -26,6 +26,13 @@ type fS struct {
 }
 type fSlice []fS
 type fKey string
+
+// fZ: typed visible field + hidden and unexported fields; the zero value is a legitimate element
+type fZ struct {
+	X int    `bexpr:"f"`
+	H string `bexpr:"-"`
+	u int
+}
 
 var c17Exprs = []string{
 	"f == 1", "f != 1", "not (f == 1)", "f == 1 or f == 2", "f == 1 and f != 2", "f is empty", "f is not empty", "1 in f", "1 not in f", "f matches `1`", "f not matches `1`",
@@ -42,13 +49,23 @@ func c17Elems(kind int) [3]reflect.Value {
 		return [3]reflect.Value{reflect.ValueOf(&fS{F: 1}), reflect.ValueOf(&fS{F: 2}), reflect.ValueOf((*fS)(nil))}
 	case 2: // map
 		return [3]reflect.Value{reflect.ValueOf(map[string]interface{}{"f": 1}), reflect.ValueOf(map[string]interface{}{"f": 2}), reflect.ValueOf(map[string]interface{}{"f": []int{1}})}
+	case 4: // struct with typed fields: T, F, and the all-zero element (true for `f != 1`, `f == 0`, `not (f == 1)` ...)
+		return [3]reflect.Value{reflect.ValueOf(fZ{X: 1, H: "h", u: 1}), reflect.ValueOf(fZ{X: 2}), reflect.ValueOf(fZ{})}
+	case 5: // same, hidden content only
+		return [3]reflect.Value{reflect.ValueOf(fZ{X: 1}), reflect.ValueOf(fZ{H: "only hidden"}), reflect.ValueOf(fZ{u: 7})}
 	default: // interface{} holding a map / struct / nil
-		mk := func(x interface{}) reflect.Value { v := reflect.New(reflect.TypeOf((*interface{})(nil)).Elem()).Elem(); if x != nil { v.Set(reflect.ValueOf(x)) }; return v }
+		mk := func(x interface{}) reflect.Value {
+			v := reflect.New(reflect.TypeOf((*interface{})(nil)).Elem()).Elem()
+			if x != nil {
+				v.Set(reflect.ValueOf(x))
+			}
+			return v
+		}
 		return [3]reflect.Value{mk(map[string]interface{}{"f": "1"}), mk(fS{F: uint8(2)}), mk(nil)}
 	}
 }
 
-var c17ElemNames = []string{"struct", "*struct", "map[string]interface{}", "interface{}"}
+var c17ElemNames = []string{"struct", "*struct", "map[string]interface{}", "interface{}", "struct(typed fields, zero element)", "struct(hidden content only)"}
 
 type c17Container struct {
 	name string
@@ -68,8 +85,13 @@ func c17Containers() []c17Container {
 		}
 		return s
 	}
+	ifaceKeys := []interface{}{1, "1", int64(1), true, "true", uint8(1), 1.0}
 	keyOf := func(kt reflect.Type, i int) reflect.Value {
 		switch kt.Kind() {
+		case reflect.Interface:
+			v := reflect.New(kt).Elem()
+			v.Set(reflect.ValueOf(ifaceKeys[i%len(ifaceKeys)]))
+			return v
 		case reflect.String:
 			return reflect.ValueOf(fmt.Sprintf("k%d", i)).Convert(kt)
 		case reflect.Int:
@@ -111,6 +133,7 @@ func c17Containers() []c17Container {
 		{name: "map[string]T", isMap: true, build: mkMap(reflect.TypeOf(""))},
 		{name: "map[int]T", isMap: true, build: mkMap(reflect.TypeOf(0))},
 		{name: "map[named string]T", isMap: true, build: mkMap(reflect.TypeOf(fKey("")))},
+		{name: "map[interface{}]T (keys that print alike: 1, \"1\", int64(1), true, \"true\", uint8(1), 1.0)", isMap: true, build: mkMap(reflect.TypeOf((*interface{})(nil)).Elem())},
 		{name: "map[bool]T", isMap: true, build: func(kind int, pat []int) reflect.Value {
 			if len(pat) > 2 {
 				return reflect.Value{}
@@ -175,7 +198,7 @@ func runC17(c *eng.Ctx) {
 			continue
 		}
 		for ci, ct := range conts {
-			for kind := 0; kind < 4; kind++ {
+			for kind := 0; kind < 6; kind++ {
 				unit++
 				if !c.Mine(unit) || !c.Want("x", xi) || !c.Want("c", ci) || !c.Want("k", kind) {
 					continue
@@ -211,7 +234,9 @@ func runC17(c *eng.Ctx) {
 					var els []el
 					if ct.isMap {
 						keys := in.MapKeys()
-						sort.Slice(keys, func(i, j int) bool { return fmt.Sprint(keys[i]) < fmt.Sprint(keys[j]) })
+						sort.Slice(keys, func(i, j int) bool {
+							return fmt.Sprintf("%T%v", keys[i].Interface(), keys[i]) < fmt.Sprintf("%T%v", keys[j].Interface(), keys[j])
+						})
 						for _, k := range keys {
 							els = append(els, el{key: k, val: in.MapIndex(k)})
 						}
